@@ -201,18 +201,23 @@ impl ProtocolRequestBuilder for crate::Request {
             vec![]
         };
 
+        let mut headers: Vec<HttpHeader> = self
+            .iter()
+            .flat_map(|(name, values)| {
+                values.iter().map(|value| HttpHeader {
+                    name: name.to_string(),
+                    value: value.to_string(),
+                })
+            })
+            .collect();
+        // the request's headers live in a hash map: give the shell one order, not whichever the hasher
+        // of this particular map produced (values of one header keep the order they were added in)
+        headers.sort_by(|a, b| a.name.cmp(&b.name));
+
         Ok(HttpRequest {
             method: self.method().to_string(),
             url: self.url().to_string(),
-            headers: self
-                .iter()
-                .flat_map(|(name, values)| {
-                    values.iter().map(|value| HttpHeader {
-                        name: name.to_string(),
-                        value: value.to_string(),
-                    })
-                })
-                .collect(),
+            headers,
             body,
         })
     }
